@@ -1,21 +1,29 @@
 import LunaVerif.Core.Proto
 import LunaVerif.Model.Periph.Ila
 import LunaVerif.Model.Periph.IlaStream
+import LunaVerif.Model.Periph.IlaSpi
 open LunaVerif LunaVerif.Proto LunaVerif.Ila
 
 /-- which class is being co-simulated (first config int) -/
 inductive DState
   | core   (c : Config) (s : Ila.State)
   | stream (c : Config) (s : IlaStream.State)
+  | spi    (c : IlaSpi.Config) (s : IlaSpi.State)
 
 /-- config line: `# kind depth pretrigger` (kind 0 = IntegratedLogicAnalyzer, 1 = StreamILA).
 kind 0: input line `trigger inputs captured_sample_number`, output line `sampling complete captured_sample`;
-kind 1: input line `trigger inputs stream.ready`, output line `sampling complete valid payload first last`. -/
+kind 1: input line `trigger inputs stream.ready`, output line `sampling complete valid payload first last`;
+kind 2 (SyncSerialILA): config line `# 2 depth pretrigger bits_per_word clock_polarity clock_phase`,
+input line `trigger inputs sck sdi cs`, output line `sampling complete sdo`. -/
 def main : IO Unit :=
   runDriver (σ := DState)
     (fun cfg =>
       let c : Config := ⟨fld cfg 1, fld cfg 2⟩
-      if fld cfg 0 = 1 then .stream c (IlaStream.init c) else .core c (init c))
+      if fld cfg 0 = 1 then .stream c (IlaStream.init c)
+      else if fld cfg 0 = 2 then
+        let cc : IlaSpi.Config := ⟨c, ⟨fld cfg 3, n2b (fld cfg 4), n2b (fld cfg 5), true, false⟩⟩
+        .spi cc (IlaSpi.init cc)
+      else .core c (init c))
     (fun st i =>
       match st with
       | .core c s =>
@@ -23,4 +31,7 @@ def main : IO Unit :=
         (.core c s', [b2n o.sampling, b2n o.complete, o.captured])
       | .stream c s =>
         let (s', o) := IlaStream.step c s ⟨n2b (fld i 0), fld i 1, n2b (fld i 2)⟩
-        (.stream c s', [b2n o.sampling, b2n o.complete, b2n o.valid, o.payload, b2n o.first, b2n o.last]))
+        (.stream c s', [b2n o.sampling, b2n o.complete, b2n o.valid, o.payload, b2n o.first, b2n o.last])
+      | .spi c s =>
+        let (s', o) := IlaSpi.step c s ⟨n2b (fld i 0), fld i 1, n2b (fld i 2), n2b (fld i 3), n2b (fld i 4)⟩
+        (.spi c s', [b2n o.sampling, b2n o.complete, b2n o.sdo]))
